@@ -83,6 +83,8 @@ PROGRAMS = [
     # 59: tab indentation (nested), a form feed between statements, trailing blanks, whitespace-only and empty lines inside blocks,
     # eight-column and two-column indentation, final newline
     "if a:\n\tb = 1  \n\n\tif c:\n\t\td = [e,\n\t\t     f]\t# t\n\t  \n\tg = 2\n\x0c\nclass K:\n        x = 1\n\n        def m(s): return s \ndef h():\n  \'\'\'d\'\'\'\n  return 1\n",
+    # 60: undelimited sequences spread over lines (subscript index, backslash-continued tuples) with multi-byte text on their first line
+    "v = y['é', a,\n      b]\nfor i in 'ü', c, \\\n    d: pass\nw = 'ñ', e, \\\n    f\ndel x['ö', g,\n  h], z",
 ]
 
 for _p in PROGRAMS:
